@@ -195,3 +195,14 @@ def make_spyne_client(app, wapp, prot):
             self.service = RemoteService(_RP, 'http://verif.invalid/', app)
 
     return Client()
+
+
+def client_read(sc, name, received):
+    """the Spyne client's reading (get_in_object) of a given response document: (in_object, in_header)"""
+    proc = getattr(sc.service, name)
+    ctx = proc.contexts[0]
+    ctx.in_string = [received]
+    proc.get_in_object(ctx)
+    if ctx.in_error is not None:
+        raise ctx.in_error
+    return ctx.in_object, ctx.in_header
